@@ -1419,7 +1419,7 @@ def main():
     # resolve `promoted` operand references: MIR prints `const <trait path>::fn::promoted[0]`
     changed = True; rounds = 0
     results = {}
-    while changed and rounds < 6:
+    while changed and rounds < 12:
         changed = False; rounds += 1
         for f in named:
             try:
@@ -1436,6 +1436,11 @@ def main():
                 if 'α' not in txt_ and 'Flt.' not in txt_ and not getattr(tr, 'uses_alpha', False):
                     f.alpha = 'none'; changed = True
             results[f.lean_name] = ('ok', tr, body)
+        # a function that cannot be translated disappears from the model, and so (next round) do its callers:
+        # the generated file stays well-formed and only what depends on the missing functions is affected
+        for f in named:
+            if results[f.lean_name][0] == 'bad' and f.lean_name in ctx.fns:
+                del ctx.fns[f.lean_name]; changed = True
     for f in named:
         r = results[f.lean_name]
         if r[0] == 'bad':
